@@ -1145,6 +1145,9 @@ func vRunControl(c *vCase) {
 		// do not leave the producer running
 		go k.self.Stop()
 	}
+	if c.Idx < 8 {
+		c.Describe("requests and expected reply classes: %v", k.hist) // shows up as a sample in the evidence file
+	}
 	c.Cov("effects_run", int(atomic.LoadInt64(&mon.effects)))
 	c.Cov("blocks_processed", int(atomic.LoadInt64(&mon.processEnds)))
 	c.Cov("blocks_held_for_a_request", int(atomic.LoadInt64(&mon.heldCount)))
